@@ -5,6 +5,8 @@ CONSTANTS
   MaxCols = 8
   AllowZero = FALSE
   AllowNoSep = FALSE
+  AllowWrap = FALSE
+  WarmModes <- MCWarmAll
   GapAlpha <- MCGapAlpha
   RichAlpha <- MCRichAlpha5
   InsAlpha <- MCInsAlpha5
@@ -16,4 +18,6 @@ INVARIANT LawContains
 INVARIANT LawTotal
 INVARIANT SelfContains
 INVARIANT ChangedVisited
+INVARIANT CacheFresh
+INVARIANT FlushesAllMoved
 INVARIANT ZeroWidthLaw
